@@ -180,6 +180,40 @@ func runC01proc(c *runCtx) {
 				}
 			}
 		}
+		// a created promise never disappears, also while the store cannot read: a second connection holds the database
+		// file exclusively for longer than the store's busy timeout. A request about an existing promise is answered with
+		// what is stored or with an explicit error, never with "not found".
+		if round%2 == 0 && len(ids) > 0 {
+			release := holdExclusive(srv.db, 5600*time.Millisecond)
+			type ans struct {
+				what   string
+				status int
+			}
+			ch := make(chan ans, 3)
+			go func() {
+				rp := srv.JSON("GET", "/promises/"+ids[0], nil, nil)
+				ch <- ans{"GET /promises/" + ids[0], rp.Status}
+			}()
+			go func() {
+				rp := srv.JSON("PATCH", "/promises/"+ids[0], nil, map[string]any{"state": "REJECTED"})
+				ch <- ans{"PATCH /promises/" + ids[0], rp.Status}
+			}()
+			go func() {
+				rp := srv.JSON("POST", "/promises", nil, map[string]any{"id": ids[0], "timeout": far})
+				ch <- ans{"POST /promises (id " + ids[0] + ")", rp.Status}
+			}()
+			for k := 0; k < 3; k++ {
+				a := <-ch
+				c.rep.Events++
+				c.rep.Hit(fmt.Sprintf("c01proc.read-fault.status.%d", a.status))
+				if a.status == 404 || a.status == 201 {
+					c.violate("procfault:existing-promise-not-found", fmt.Sprintf("round %d: while another connection held the database file exclusively, %s was answered %d although the promise exists", round, a.what, a.status), nil)
+				}
+			}
+			if <-release {
+				c.rep.Hit("c01proc.read-fault-rounds")
+			}
+		}
 		c.rep.Hit("c01proc.rounds")
 		if len(c.rep.Samples) < 2 {
 			c.rep.Sample(map[string]any{"round": round, "promises": ids, "acknowledged_under_fault": len(acked)})
